@@ -19,9 +19,10 @@ PROPS = {
     },
     "C06": {
         "harnesses": [
-            {"pkg": "interpreter", "name": "VH_C06_CheckSig", "quick": {"params": {"S": 1, "ERA": 0, "HT": 2}}, "thorough": {"params": {"S": 2, "ERA": 1, "HT": 2}}},
-            {"pkg": "interpreter", "name": "VH_C06_CheckSig", "quick": {"params": {"S": 0, "ERA": 0, "HT": 0, "UNC": 1}}, "thorough": {"params": {"S": 1, "ERA": 1, "HT": 1, "UNC": 1}}},
+            {"pkg": "interpreter", "name": "VH_C06_CheckSig", "skip_label_prefix": "assert:C08", "quick": {"params": {"S": 1, "ERA": 0, "HT": 2}}, "thorough": {"params": {"S": 2, "ERA": 1, "HT": 2}}},
+            {"pkg": "interpreter", "name": "VH_C06_CheckSig", "skip_label_prefix": "assert:C08", "quick": {"params": {"S": 0, "ERA": 0, "HT": 0, "UNC": 1}}, "thorough": {"params": {"S": 1, "ERA": 1, "HT": 1, "UNC": 1}}},
             {"pkg": "interpreter", "name": "VH_C06_Encoding", "quick": {"params": {"S": 0, "ERA": 0, "TRAIL": 0, "SLN": 2}}, "thorough": {"params": {"S": 0, "ERA": 0, "TRAIL": 0, "SLN": 6}}},
+            {"pkg": "interpreter", "name": "VH_C06_LowS", "quick": {"params": {"S": 0, "ERA": 0, "TRAIL": 0, "HT": 0}}, "thorough": {"params": {"S": 0, "ERA": 1, "TRAIL": 0, "HT": 2}}},
             {"pkg": "interpreter", "name": "VH_C06_MultiSig", "quick": {"params": {"S": 0, "N": 2, "ERA": 0, "HT": 0}}, "thorough": {"params": {"S": 1, "N": 3, "ERA": 1, "HT": 1}}},
         ],
         "assumptions": [],
@@ -85,6 +86,7 @@ PROPS = {
         "harnesses": [
             {"pkg": "bscript", "name": "VH_C15_RoundTrip"},
             {"pkg": "bscript", "name": "VH_C15_Reject"},
+            {"pkg": "bscript", "name": "VH_C15_Versions"},
             {"pkg": "bscript", "name": "VH_C15_Edits", "quick": {"params": {"ADDRS": 2}}, "thorough": {"params": {"ADDRS": 3}}},
         ],
         "assumptions": [],
@@ -130,6 +132,8 @@ PROPS = {
     "C08": {
         "harnesses": [
             {"pkg": "interpreter", "name": "VH_C08_Alias", "quick": {"params": {"K": 2, "KB": 4, "U": 6, "NUMERIC": 0}}, "thorough": {"params": {"K": 3, "KB": 5, "U": 8, "NUMERIC": 1}}},
+            # signature opcodes (with executed code separators): only the "transaction unchanged" assertion counts here
+            {"pkg": "interpreter", "name": "VH_C06_CheckSig", "only_label_prefix": "assert:C08", "quick": {"params": {"S": 1, "ERA": 0, "HT": 0, "TRAIL": 0}}, "thorough": {"params": {"S": 2, "ERA": 1, "HT": 1}}},
         ],
         "assumptions": [],
     },
